@@ -1,5 +1,5 @@
 CONSTANTS Scripts <- ScriptsQ  Seqs <- SeqsQ  Stacks <- StacksQ  OutChoices <- OutsQ  MaxIn = 2  MaxOut = 2
-TrailKinds = {"none", "zero", "last", "copy", "prefix"}  Deviation = "none"
+TrailKinds = {"none", "zero", "copy", "prefix"}  Deviation = "none"
 INIT Init
 NEXT Next
 INVARIANT CasesWellFormed
